@@ -10,7 +10,8 @@ PER_CASE_TIMEOUT = 10.0
 AUTHORITY = ("C12_cover (coq/props/C12.v): for EVERY width the coefficients 1,2,..,2^(n-2), K-2^(n-1)+1 reach exactly 0..K; "
              "the runner checks the SDK's coefficients, constant and registered binaries against the model for the SDK's own new ids")
 RULE = ("instances with an integer variable [l,u] among other variables (non-contiguous ids): every width 1..64 (quick) / 1..4096 "
-        "(thorough) at random offsets, random |l|,|u| <= 2^20, fractional bounds, sampled widths up to 2^40; every error condition: "
+        "(thorough) at random offsets, the same widths with fractional outward slack on both sides (total slack below / at / above 1), "
+        "random |l|,|u| <= 2^20, fractional bounds, sampled widths up to 2^40; every error condition: "
         "unknown id, kind binary/continuous/semi-*, no bound, -inf / +inf / both infinite (under a 10 s watchdog), NaN bound, no "
         "integer in the bound, single-integer range; after an error the instance must be unchanged. non-trivial = width >= 2")
 TRUSTED = ["hand-written model coq/theories/Transform.v (log_encode); float log2/ceil is modelled by N.log2_up (validated here)"]
@@ -34,6 +35,14 @@ def gen(rng, tier):
     for w in range(0, maxw + 1):
         lo = rng.randint(-50, 50)
         cases.append({"op": "log_encode", "input": [inst_with(rng, 2, (float(lo), float(lo + w))), 5], "stream": "width"})
+    # every small integer width with fractional outward slack on both sides (total slack below, at and above 1):
+    # the number of bits must follow the INTEGER width floor(u) - ceil(l), not u - l
+    for w in range(0, (maxw if tier == "quick" else 300) + 1):
+        combos = [(0.75, 0.75), (0.5, 0.5)] + [(rng.choice([0.0, 0.25, 0.5, 0.75]), rng.choice([0.0, 0.25, 0.5, 0.75]))
+                                               for _ in range(2)]
+        for fl, fh in combos:
+            lo = rng.randint(-50, 50)
+            cases.append({"op": "log_encode", "input": [inst_with(rng, 2, (lo - fl, lo + w + fh)), 5], "stream": "width-frac"})
     n = 150 if tier == "quick" else 4000
     for _ in range(n):
         lo = rng.randint(-2 ** 20, 2 ** 20)
